@@ -1398,9 +1398,13 @@ class KMIPProxy(object):
     def _process_discover_versions_batch_item(self, batch_item):
         payload = batch_item.response_payload
 
+        protocol_versions = None
+        if payload is not None:
+            protocol_versions = payload.protocol_versions
+
         result = DiscoverVersionsResult(
             batch_item.result_status, batch_item.result_reason,
-            batch_item.result_message, payload.protocol_versions)
+            batch_item.result_message, protocol_versions)
 
         return result
 
